@@ -1,4 +1,5 @@
 mod bdd;
+mod ckks;
 mod core;
 mod dft;
 mod fhe;
@@ -150,6 +151,21 @@ fn main() {
             }
             out.flush().unwrap();
             println!("ks: {} events", cases.len());
+        }
+        // ckks <programs.ndjson> <events.ndjson>
+        "ckks" => {
+            let cases = read_ndjson(&args[2]);
+            let mut out = BufWriter::new(std::fs::File::create(&args[3]).unwrap());
+            for (idx, c0) in cases.iter().enumerate() {
+                let mut c = c0.clone();
+                if c.get("id").is_none() {
+                    c["id"] = serde_json::json!(idx + 1);
+                }
+                let ev = ckks::run_ckks(&c);
+                writeln!(out, "{}", serde_json::to_string(&ev).unwrap()).unwrap();
+            }
+            out.flush().unwrap();
+            println!("ckks: {} events", cases.len());
         }
         // lut <descriptors.ndjson> <events.ndjson>
         "lut" => {
